@@ -88,6 +88,21 @@ def r06_4(run):
                f"allocated with *_like({var}.data) (memory order of the tensor's own array)" if ok else
                f"stored as produced / np.copy(order='K') of the producer's result: {var}.grad can have a different memory layout "
                f"than {var}.data, so replaying a reshape-like view op on it copies (or fails) instead of viewing")
+    # whatever is done about D5, a copy made here must at least keep the producer's layout (np.copy: order='K'); ndarray.copy() is order='C'
+    copies = []
+    for n in own_nodes(fi.node):
+        if isinstance(n, ast.Call):
+            d = dotted(n.func) or ""
+            if d in ("np.copy", "numpy.copy") or (isinstance(n.func, ast.Attribute) and n.func.attr == "copy" and not d.startswith("np.")):
+                copies.append(n)
+    for c in copies:
+        o = kw(c, "order")
+        is_np = (dotted(c.func) or "") in ("np.copy", "numpy.copy")
+        ok = (is_np and (o is None or norm(o) in ("'K'", "'A'"))) or (not is_np and o is not None and norm(o) in ("'K'", "'A'"))
+        run.ob("R06.4", loc(fi, c), fi.short, f"copy `{norm(c)[:40]}` of a gradient contribution preserves its memory layout", ok,
+               "np.copy (order='K')" if ok else
+               "ndarray.copy() defaults to C order: a column-major first contribution is re-laid out, so views of an F-ordered base can no longer "
+               "be views of its gradient")
     # the grad property: replays the creator's op on the parent's grad, inside no_autodiff, validated by base identity
     g = anchor_func(run, GRAD)
     cfgg = build_cfg(run, g)
